@@ -311,3 +311,21 @@ def has(src, fragment):
         elif _unify(p, c, loc, {}, {}):
             return True
     return False
+
+
+def names_assigned_from(fnode, *needles):
+    """names of plain-Name assignment targets whose assigned value's source contains every needle (definition-based
+    look-up of a local variable, so that rules do not depend on what the local is called)"""
+    out = []
+    for n in ast.walk(fnode):
+        pairs = []
+        if isinstance(n, ast.Assign):
+            pairs = [(t, n.value) for t in n.targets]
+        elif isinstance(n, ast.NamedExpr):
+            pairs = [(n.target, n.value)]
+        elif isinstance(n, ast.AnnAssign) and n.value is not None:
+            pairs = [(n.target, n.value)]
+        for t, v in pairs:
+            if isinstance(t, ast.Name) and all(nd in ast.unparse(v) for nd in needles) and t.id not in out:
+                out.append(t.id)
+    return out
